@@ -80,6 +80,37 @@ func runC14(c *core.Case) {
 		c.Fail("point-constructor", nil, "NewPoint refused an in-domain point")
 		return
 	}
+	if rad > 0 && r.P(0.04) {
+		// threshold radius: the largest radius (to 1e-13 relative) for which the clearance fit of the start voxel still
+		// reports its current horizontal layer count; found by bisection on the public fit function
+		if sv, e := shape.GetExtendedSpatialIdsOnPoints([]*object.Point{a}, h, v); e == nil {
+			if n0, _, e0 := transform.FitClearanceAroundExtendedSpatialID(sv[0], rad); e0 == nil {
+				hi := rad
+				found := false
+				for k := 0; k < 12 && hi*1.25 <= limit*wMin; k++ {
+					hi *= 1.25
+					if n1, _, e1 := transform.FitClearanceAroundExtendedSpatialID(sv[0], hi); e1 == nil && n1 > n0 {
+						found = true
+						break
+					}
+				}
+				if found {
+					lo := rad
+					for k := 0; k < 60 && (hi-lo) > 1e-13*hi; k++ {
+						mid := lo + (hi-lo)/2
+						if n1, _, e1 := transform.FitClearanceAroundExtendedSpatialID(sv[0], mid); e1 == nil && n1 > n0 {
+							hi = mid
+						} else {
+							lo = mid
+						}
+						c.Call()
+					}
+					rad = lo
+					c.Tag("threshold-radius")
+				}
+			}
+		}
+	}
 	var obs []string
 	c.Desc = func() any {
 		return map[string]any{"start": fmt.Sprintf("(%.17g, %.17g, %.17g)", pa.lon, pa.lat, pa.alt), "end": fmt.Sprintf("(%.17g, %.17g, %.17g)", pb.lon, pb.lat, pb.alt),
@@ -215,6 +246,31 @@ func runC14(c *core.Case) {
 	if !matched {
 		c.Fail("corridor-search-box", nil, "corridor(skip=true) with %d IDs is not line + N-layer box for any layer count the clearance fit reports for the line's voxels: %v", len(sSet), detail)
 		return
+	}
+	// history: a corridor request at the voxel whose row index is this start row without its last decimal digit (same
+	// zoom, column and radius; farther towards the pole, so it needs at least as many layers), then this request again:
+	// the second answer must equal the first
+	if h >= 8 && r.P(0.04) {
+		if sv, e := shape.GetExtendedSpatialIdsOnPoints([]*object.Point{a}, h, v); e == nil {
+			st, _ := ref.ParseExt(sv[0])
+			pre := ref.ID{H: h, X: st.X, Y: st.Y / 10, V: v, F: st.F}
+			latPre := (ref.LatOfRow(float64(pre.Y), h) + ref.LatOfRow(float64(pre.Y+1), h)) / 2
+			wPre := wEq * math.Cos(latPre*math.Pi/180)
+			if pre.Y != st.Y && rad/wPre <= 10 && math.Abs(latPre) < ref.MaxLat {
+				lonPre := ref.LonOfColExact(pre.X, h) + 180/math.Ldexp(1, int(h))
+				if pp, e := object.NewPoint(lonPre, latPre, a.Alt()); e == nil {
+					_, _ = transform.GetExtendedSpatialIdsWithinRadiusOfLine(pp, pp, rad, h, v, true)
+					again, e2 := transform.GetExtendedSpatialIdsWithinRadiusOfLine(a, b, rad, h, v, true)
+					c.Calls(2)
+					as, _ := ref.SetOfExt(again)
+					if missing, extra, same := ref.SameSet(as, sSet); e2 != nil || !same {
+						c.Fail("corridor-history-dependent", nil, "corridor(skip=true) repeated after a request at %s (row index without its last digit, same radius): err %v, missing %v, unexpected %v (%d vs %d IDs)", pre.Ext(), e2, missing, extra, len(as), len(sSet))
+						return
+					}
+					c.Tag("decimal-prefix-history")
+				}
+			}
+		}
 	}
 	// subset relation
 	for s := range mSet {
